@@ -109,7 +109,10 @@ func (a *App) CommitHandler(block hg.Block) (proxy.CommitResponse, error) {
 			receipts = append(receipts, itx.AsRefused())
 		}
 	}
-	resp := proxy.CommitResponse{StateHash: append([]byte{}, a.State...), InternalTransactionReceipts: receipts}
+	// what is handed back to Babble; the record keeps exactly the same value
+	// (including nil vs empty), because block signatures cover its encoding
+	resp := proxy.CommitResponse{StateHash: append([]byte{}, a.State...)}
+	resp.InternalTransactionReceipts = append(resp.InternalTransactionReceipts, receipts...)
 	d := &Delivered{Index: block.Index(), Body: body, BodyJSON: jb, Resp: resp, Step: a.CurrentStep, Epoch: a.Epoch}
 	a.Delivered = append(a.Delivered, d)
 	a.Snapshots[block.Index()] = append([]byte{}, a.State...)
